@@ -714,7 +714,7 @@ pub async fn run_scenario(sc: &Value) -> Vec<Value> {
     env.jitter_writes = !matches!(stype.as_str(), "PUB" | "XPUB");
     gate().set_hold(None);
     take_panics();
-    env.ev(json!({"ev":"reset","scen":sc.get("scen").cloned().unwrap_or(json!(0)),"sock":stype,"tag":sc.get("tag").cloned().unwrap_or(Value::Null),"jitter":env.jitter}));
+    env.ev(json!({"ev":"reset","scen":sc.get("scen").cloned().unwrap_or(json!(0)),"sock":stype,"tag":sc.get("tag").cloned().unwrap_or(Value::Null),"jitter":env.jitter,"fair":true}));
     let ops: Vec<Value> = sc["ops"].as_array().cloned().unwrap_or_default();
     let mut i = 0usize;
     let mut dropped: Option<Value> = None;
